@@ -244,12 +244,12 @@ def check_collated(ctx, case, stratum="collate"):
 
 
 def run(ctx):
-    for i in ctx.mine(ctx.n(30000, 1200000)):
+    for i in ctx.mine(ctx.n(30000, 4000000)):
         r = ctx.rng("shot", i)
         s = gen_shot(r)
         ctx.case("shot", s, shot_nontrivial(s))
         ctx.guard("shot", s, check_shot, ctx, s)
-    for i in ctx.mine(ctx.n(5000, 200000)):
+    for i in ctx.mine(ctx.n(5000, 600000)):
         r = ctx.rng("result", i)
         c = gen_result(r)
         per = []
@@ -262,7 +262,7 @@ def run(ctx):
                   for d in per}) > 1
         ctx.case("result", c, nt)
         ctx.guard("result", c, check_result, ctx, c)
-    for i in ctx.mine(ctx.n(5000, 200000)):
+    for i in ctx.mine(ctx.n(5000, 600000)):
         r = ctx.rng("collate", i)
         shots = []
         for _ in range(r.randint(1, 5)):
